@@ -9,7 +9,8 @@
 (*            scale)                                                           *)
 (*   e.par  : parameters and returned index maps, all fields always present    *)
 (*            (unused ones empty): elements, ix, skips, skipb, fnum, fden, d,  *)
-(*            axis, c, A, b, facets, fv, ret, proj, sign, xmap                 *)
+(*            axis, c (TWICE the mirror plane's coordinate), A, b, facets, fv,  *)
+(*            ret, proj, sign, xmap                                            *)
 (*   e.ck_pre, e.ck_post : checksums of the operands' arrays around the call   *)
 (* used by the model-checking module MC_C18 and by the trace specification.    *)
 (* Part 2 - transcriptions (Impl) of the operations with non-trivial index     *)
@@ -39,7 +40,7 @@ RECURSIVE ProdSeq(_)
 ProdSeq(s) == IF s = <<>> THEN 1 ELSE Head(s) * ProdSeq(Tail(s))
 Img(e, x) ==
   CASE e.op = "translated" -> VAdd(x, e.par.d)
-    [] e.op = "mirrored"   -> [i \in DOMAIN x |-> IF i = e.par.axis THEN 2 * e.par.c - x[i] ELSE x[i]]
+    [] e.op = "mirrored"   -> [i \in DOMAIN x |-> IF i = e.par.axis THEN e.par.c - x[i] ELSE x[i]]   \* par.c = 2 * plane
     [] e.op = "morphed"    -> Affine(e.par.A, e.par.b, x)
     [] e.op = "scaled"     -> [i \in DOMAIN x |-> (x[i] * e.par.fnum[i]) \div e.par.fden[i]]
     [] OTHER               -> x
